@@ -2,14 +2,6 @@ import CvxVerif.Model.CertCheck
 import CvxVerif.Model.Proto
 open CvxVerif CvxVerif.Cert CvxVerif.Proto
 
-def parseRat (s : String) : Option Rat :=
-  match s.splitOn "/" with
-  | [a] => a.toInt?.map (fun n => (n : Rat))
-  | [a, b] => match a.toInt?, b.toNat? with
-    | some n, some d => some (mkRat n d)
-    | _, _ => none
-  | _ => none
-
 def parseVec (s : String) : Option (List Rat) :=
   if s == "-" || s == "" then some [] else (s.splitOn ",").mapM parseRat
 
@@ -27,8 +19,6 @@ def parseDims (s : String) : Option Dims :=
 
 def kv (ws : List String) (k : String) : Option String :=
   (ws.find? (fun w => w.startsWith (k ++ "="))).map (fun w => (w.drop (k.length + 1)).toString)
-
-def showRat (q : Rat) : String := if q.den == 1 then toString q.num else s!"{q.num}/{q.den}"
 
 structure DS where
   p : Option Problem := none
